@@ -45,12 +45,12 @@ CHECKS = {
          "DESIGN.md §4 C20"),
  "C14": ("fault_enumeration",
          "fault injection at the Directory seam, enumerated over the operation indexes of a recorded fault-free run, each faulty re-run in a child process monitored for death / lack of progress, with reader-vs-model oracles after every batch, surfacing checks (Batch error, AsyncError), an acknowledgement probe after the fault clears and crash-image recovery of the faulty trace",
-         "For seeded histories the fault-free operation sequence is recorded; the same history is then re-run with an injected failure at chosen operation indexes for Persist (before any byte / after a partial write / after the full write), Load, Remove and List, transient and sticky, in safe and unsafe mode (pairs of placements in the thorough tier). Each run must not die or stall, readers must follow the applied batches, background failures must reach AsyncError (and the waiting Batch), a Write that failed inside an item writer must not end in a reported success (the injector passes a swallowed error on faithfully and marks it), the batch after the fault must be acknowledged, and all boundary crash images of the faulty trace must recover to a state not older than the last acknowledgement. Enumerated over the sampled placements of each history.",
+         "For seeded histories the fault-free operation sequence is recorded; the same history is then re-run with an injected failure at chosen operation indexes for Persist (before any byte / after a partial write / after the full write), Load, Remove and List, transient and sticky, in safe and unsafe mode (pairs of placements in the thorough tier). Each run must not die or stall, readers must follow the applied batches, background failures must reach AsyncError (and the waiting Batch), a Write that failed inside an item writer must not end in a reported success (the injector passes a swallowed error on faithfully and marks it), the batch after the fault must be acknowledged, and all boundary crash images of the faulty trace must recover to a state not older than the last acknowledgement. Enumerated over the sampled placements of each history. The thorough tier runs a second stage on the yield-instrumented build (see C01).",
          "Trusts: directory-level injection as a model of I/O failure (os-level variants covered by C13); storage model of C02; 45 s progress watchdog (wall clock) reported with goroutine dump.",
          "DESIGN.md §4 C14"),
  "C11": ("exploration",
          "on-line invariant monitor hooked into a recording Directory wrapper (directory read back, decoded and CRC-checked after every snapshot persist and every remove; closer pairing; /proc/self/fd; reopen; second-writer refusal) under merge-happy runs with jitter, plus a lock hand-off stress",
-         "During real merge-happy runs with retention 1..3 the monitor evaluates, at every boundary after a snapshot persist or a remove and with no operation half-way, that enough loadable snapshots with all their segment files exist and that a removed segment does not belong to the live root; at the end every Load closer must have been closed exactly once, no descriptor under the directory may be open, the directory must reopen at once with the right content and further writers must have been refused harmlessly (three attempts in a row at three moments of the first writer's life: a refusal must leave the lock in force). Held on the runs observed; the lock hand-off race is a listed finding.",
+         "During real merge-happy runs with retention 1..3 the monitor evaluates, at every boundary after a snapshot persist or a remove and with no operation half-way, that enough loadable snapshots with all their segment files exist and that a removed segment does not belong to the live root; at the end every Load closer must have been closed exactly once, no descriptor under the directory may be open, the directory must reopen at once with the right content and further writers must have been refused harmlessly (three attempts in a row at three moments of the first writer's life: a refusal must leave the lock in force). Held on the runs observed; the lock hand-off race is a listed finding. Both tiers run on the ordinary and on the yield-instrumented build (see C01).",
          "Trusts: the recording wrapper (operations serialised against the read-back only), the harness' decoder use (real ReadFrom + CRC).",
          "DESIGN.md §4 C11"),
  "C02": ("fault_enumeration",
@@ -60,7 +60,7 @@ CHECKS = {
          "DESIGN.md §2.6, §4 C02"),
  "C03": ("fault_enumeration",
          "crash-image enumeration over recorded traces including every torn state of the persist in flight (prefixes, zero-filled, half-written, stale tails), recovery by the real code in child processes, and depth-2 crash/recover/continue/crash sequences with their own recorded traces",
-         "As C02, plus for each in-flight persist the torn variants of its file; recovery must never kill the child, must succeed once any snapshot had completed, must yield a prefix state with both loaders, and the recovered writer must accept a batch; selected recovered images (torn newest snapshots first) are continued by a fresh writer in a child, whose trace is enumerated again. Exhaustive per trace over the stated torn-state set.",
+         "As C02, plus for each in-flight persist the torn variants of its file; recovery must never kill the child, must succeed once any snapshot had completed, must yield a prefix state with both loaders, and the recovered writer must accept a batch; selected recovered images (torn newest snapshots first) are continued by a fresh writer in a child, whose trace is enumerated again. Exhaustive per trace over the stated torn-state set. The thorough tier runs a second stage on the yield-instrumented build (see C01).",
          "Storage model as C02; torn states limited to the enumerated classes; child death = fault.",
          "DESIGN.md §2.6, §4 C03"),
  "C13": ("fault_enumeration",
